@@ -86,4 +86,11 @@ MemFactOK(e, mode) ==
       [] e.o = "insert"  -> e.r = InsertResult(e.v, e.I, e.x, w)
       [] e.o = "roundtrip" -> e.r = e.v
       [] OTHER -> FALSE
+
+(***************************************************************************)
+(* Prefetch hints (C20): for every pointer and count the call returns      *)
+(* without a signal and memory is unchanged; a hint performs no            *)
+(* architectural access at all.                                            *)
+(***************************************************************************)
+PrefetchFactOK(e) == e.sig = "none" /\ e.memchanged = 0
 =============================================================================
